@@ -47,6 +47,9 @@ prop("C03",
      harnesses=[
          H("txfile.VerifProgStore", "from-init symbolic program against a reference model: read-your-writes, committed view, reopen",
            "ntx=1,nops=2 (quick)", quick={"params": {"ntx": 1, "nops": 2}}, thorough={"params": {"ntx": 2, "nops": 2, "nops2": 1}, "max_paths": 200000, "budget": "1500s"}),
+         H("txfile.VerifWriterOrder", "real background writer: per page the last scheduled write is the last one issued, syncs separate what was scheduled before/after them; sort.Slice ties nondeterministic",
+           "3 messages (thorough 4) with symbolic page ids out of 2 (thorough 3), symbolic sync positions, writer runs when the producer blocks (thorough: 2 preemptions at sync operations)",
+           thorough={"params": {"msgs": 4, "ids": 3, "preempt": 2}, "max_paths": 200000, "budget": "1200s"}),
      ])
 
 PROG_BOUNDS = ("fresh file on the simulated disk (page size 1024, 64 pages or unbounded), 2 committed pages, "
@@ -107,3 +110,14 @@ prop("C15",
          H("txfile.VerifMisuseLifecycle", "calls on finished / read-only transactions and their pages: documented error kind, no panic, nothing changes, file not blocked", "6 lifecycle states x 18 method groups"),
          H("txfile.VerifMisuseActive", "invalid operations in an active write transaction: documented error kind, state unchanged after rollback", "9 cases, symbolic page id"),
      ])
+
+# ------------------------------------------------------------------ C01
+CRASH_BOUNDS = ("committed prefix state S (2 pages + 1 symbolic transaction), one symbolic transaction T of <= 1 (quick) / 2 (thorough) operations "
+                "(alloc, overwrite, partial write, free, Flush, CheckpointWAL, SetRoot; commit or rollback), crash at every index of the recorded I/O log, "
+                "loss patterns over the writes since the last completed sync: all kept / all lost / exactly one lost / exactly one kept (thorough: every subset when <= 4 writes), "
+                "torn last write: header writes cut at 0/6/40/80/83 bytes, page writes cut in half; one fixed follow-up transaction + reopen on the recovered file")
+prop("C01", bounds=CRASH_BOUNDS,
+     outside=PROG_OUT + "; torn writes at other byte positions; real OS durability semantics (the disk model is: a completed sync makes everything issued before it durable; un-synced writes persist in any subset); "
+             "rejection of a torn header that equals neither image rests on FNV not colliding (concrete headers here, so it is evaluated, not assumed)",
+     harnesses=variants("txfile.VerifCrash", "recovery by the real Open code after a crash at any I/O boundary yields S or the complete S' (only once Commit was entered), recovered file fully operational",
+                        {"nops": 1, "pre": 1}, {"nops": 2, "pre": 1, "fullmask": 1}, vs=(0, 1, 4), quick_vs=(0, 4)))
